@@ -14,6 +14,7 @@ MC_KeyChoices == {3}
 MC_CoeffChoices == {0,5}
 MC_RandChoices == {1,2}
 MC_Msgs == {<<104,105>>}
+MC_ListOrders == {"asc","rot"}
 MC_MaxExtra == 1
 MC_EMIT == TRUE
 
